@@ -544,6 +544,41 @@ func (c16) Run(ctx *Ctx, ci interface{}) (o Outcome) {
 			}
 		}
 	}
+	// A hit on the reverse strand must be what phasing the reverse complement alone, forward only,
+	// gives: nothing of the candidates that lost (the other strand) may leak into the result.
+	if c.Reverse && c.GiveRef {
+		sub := cloneCase(c16{}, c).(*C16Case)
+		sub.Names, sub.Seqs, sub.Verbatim = nil, nil, nil
+		sub.Reverse, sub.BadAt, sub.Choices = false, -1, nil
+		want := map[string]phRes{}
+		for _, r := range run.results {
+			in := byName[r.Name]
+			onFw := r.Pos >= 0 && r.Pos <= len(in) && strings.HasPrefix(in[r.Pos:], r.Nt)
+			if onFw || r.Removed {
+				continue
+			}
+			sub.Names = append(sub.Names, r.Name)
+			sub.Seqs = append(sub.Seqs, revcompStr(in))
+			sub.Verbatim = append(sub.Verbatim, -1)
+			want[r.Name] = r
+		}
+		if len(sub.Names) > 0 {
+			alone := sub.runPhase(ctx, 1, SchedCfg{Seed: 1, Policy: PolFIFO, MaxSteps: budget})
+			o.Add("reverse_hits_compared_with_forward_run_of_the_reverse_complement", int64(len(sub.Names)))
+			if alone.sr.RootDone && alone.callErr == nil && alone.closed {
+				for _, r := range alone.results {
+					w, ok := want[r.Name]
+					if !ok || r.Err != "" || r.Removed {
+						continue
+					}
+					if r.Pos != w.Pos || r.Nt != w.Nt || r.Codon != w.Codon || r.Aa != w.Aa {
+						o.Fail("framing:reverse-hit-differs-from-forward-run:Phase", "%s: phased with the reverse strand allowed the best hit is on the reverse strand (position %d, codons %q, protein %q); phasing its reverse complement alone, forward only, gives position %d, codons %q, protein %q\ninput %q", r.Name, w.Pos, clip(w.Codon, 40), clip(w.Aa, 30), r.Pos, clip(r.Codon, 40), clip(r.Aa, 30), byName[r.Name])
+						return
+					}
+				}
+			}
+		}
+	}
 	return
 }
 
